@@ -245,7 +245,7 @@ def run_tlc(module, cfg, cwd, *, workers=None, timeout=600, simulate=None, depth
         if os.path.dirname(os.path.abspath(f)) != os.path.abspath(cwd):
             shutil.copy(f, cwd)
     meta = tempfile.mkdtemp(prefix="meta-", dir=cwd)
-    jopts = ["-XX:+UseParallelGC", "-Xss512m", "-Dfile.encoding=UTF-8"]
+    jopts = ["-XX:+UseParallelGC", "-Xss512m", "-Dfile.encoding=UTF-8", "-Djava.io.tmpdir=" + meta]
     if heap:
         jopts.append("-Xmx" + heap)
     if dfs:
@@ -335,7 +335,7 @@ def sany_all():
     mods = sorted(f for f in os.listdir(d) if f.endswith(".tla"))
     procs = []
     for f in mods:
-        procs.append((f, subprocess.Popen(["java", "-cp", TLC_JAR, "tla2sany.SANY", f], cwd=d,
+        procs.append((f, subprocess.Popen(["java", "-Djava.io.tmpdir=" + d, "-cp", TLC_JAR, "tla2sany.SANY", f], cwd=d,
                                           stdout=subprocess.PIPE, stderr=subprocess.STDOUT, text=True)))
     for f, p in procs:
         out, _ = p.communicate()
